@@ -247,6 +247,10 @@ class File(object):
                         depth += 1
                     elif x.k == "p" and x.s in (">", ")"):
                         depth -= 1
+                    elif x.k == "p" and x.s == ">>":
+                        depth -= 2
+                    elif x.k == "p" and x.s == "<<":
+                        depth += 2
                     elif is_id(x, "for") and depth == 0:
                         trait, hdr = "".join(y.s for y in hdr[:q]), hdr[q + 1:]
                         break
@@ -590,6 +594,8 @@ class Ev(object):
             return ("ptr", self.rtype(ty[1], ctx))
         if k == "tuple":
             return ("tup", [self.rtype(x, ctx) for x in ty[1]]) if ty[1] else ("unit",)
+        if k == "array" and ty[2] is None:
+            return ("slice", self.rtype(ty[1], ctx))
         if k == "array":
             n = self.ev(ty[2], Env(), ctx)
             if not (isinstance(n, tuple) and n[0] == "int"):
@@ -1853,6 +1859,19 @@ FAMILIES = [
         dict(lean="jh_compressor_finalize", fn="finalize", owner="Compressor"),
     ]),
 ]
+
+
+def _skein_block(nb):
+    tag = "skein_block%d" % (8 * nb)
+    sub = {"N": ("num", nb)}
+    inl = ("Block::as_byte_array", "Block::as_byte_array_mut", "Block::as_word_array", "Block::as_word_array_mut",
+           "Block::bytes", "Block::from_byte_array", "Block::default", "Block::bitxor")
+    mk = lambda fn: dict(lean="%s_%s" % (tag, fn), fn=fn, owner="Block", subst=sub, inline=inl)
+    return [mk(f) for f in ("as_byte_array", "as_byte_array_mut", "as_word_array", "as_word_array_mut", "bytes",
+                            "from_byte_array", "default", "bitxor")]
+
+
+FAMILIES.append(dict(fam="skein", files=[SKEIN_LIB], specs=_skein_block(32) + _skein_block(64) + _skein_block(128)))
 
 
 def hashc_inventory(repo="/repo"):
